@@ -22,6 +22,7 @@ memoised (two `random.random() <= 0.5` tests are independent).
 Nothing here executes repository code: the enumerator only walks syntax.
 """
 import ast
+import os
 
 from .astutil import (text, access_path, access_paths_in, mutated_paths,
                       paths_overlap, const_value, is_const, calls_in,
@@ -450,6 +451,7 @@ class TooManyPaths(AnalysisError):
 
 
 STATS = {"paths": 0, "functions": 0}
+DEEP = [os.environ.get("VERIF_TIER", "quick") == "thorough"]
 
 
 class Enumerator:
@@ -463,13 +465,36 @@ class Enumerator:
         self.use_facts = use_facts
         self._n = 0
         self._frames = 0
+        self._deep = False
 
     def counts(self, node):
         c = self._loop_counts(node) if callable(self._loop_counts) else self._loop_counts
-        return tuple(sorted(set(c)))
+        c = tuple(sorted(set(c)))
+        if self._deep and len(c) > 1:
+            # thorough tier: one more round of every loop that is explored with a range of iteration counts
+            c = c + (max(c) + 1,)
+        return c
 
     # -- public
     def function_paths(self, fn, facts=None):
+        """all paths of fn within the loop bounds; in the thorough tier (VERIF_TIER=thorough) loops are unrolled one
+        round deeper, falling back to the standard bounds when that exceeds the path budget"""
+        self._deep = DEEP[0]
+        if self._deep:
+            try:
+                save = self.max_paths
+                self.max_paths = min(self.max_paths, 60000)
+                self._n = 0
+                return self._function_paths(fn, facts)
+            except TooManyPaths:
+                STATS["deep_fallbacks"] = STATS.get("deep_fallbacks", 0) + 1
+            finally:
+                self.max_paths = save
+            self._deep = False
+            self._n = 0
+        return self._function_paths(fn, facts)
+
+    def _function_paths(self, fn, facts=None):
         st = State(None, facts or Facts())
         out = []
         STATS["functions"] += 1
